@@ -368,7 +368,7 @@ func (ca *fakeCA) RoundTrip(req *http.Request) (*http.Response, error) {
 		}
 		leaf, err := ca.leaf([]string{domain}, csr.PublicKey, ca.now.Add(-ca.backdate), ca.now.Add(ca.lifetime))
 		if err != nil {
-			return ca.confused(req, "issuing: %v", err), nil
+			return ca.problem(req, 400, "badCSR", "cannot issue: "+err.Error()), nil
 		}
 		ca.mu.Lock()
 		ca.issued[domain+"|"+keyTypeOf(csr.PublicKey)]++
